@@ -77,6 +77,11 @@ CHECKS = {
   "Every operation sequence up to depth 5/6 (unidirectional, 11-operation alphabet) and 4/5 (bidirectional, 19 operations), plus random sequences of length 6..40, is run on a fresh connected pair and on a small reference model; return value classes, Finished/Stopped event multisets, stray events and the open-stream count are compared after every operation. The honest-world application oracles (second Connected, accept() of local ids, ...) add in-vivo coverage.",
   "exhaustive only up to the stated depth and alphabet; one stream per sequence; plaintext lane",
   "DESIGN.md section 4 C11"),
+ "C14": ("exploration",
+  "runtime monitoring: token presentation oracle (genuine tokens captured through a recording TokenStore / from the wire, then presented mutated, moved, delayed and replayed; verdict read from Incoming::remote_address_validated and the client's close code) + wire census of the tokens a client puts in its Initials under in-flight Retry corruption + reference-set monitors over BloomTokenLog and TokenMemoryCache histories",
+  "A reference predicate (unchanged, issued by this server's key, right address - exact for Retry, IP for NEW_TOKEN -, within lifetime, first use, log present) is compared with what the server concluded for ~6000 quick / 400000 thorough presentations across key kinds (ring HKDF+AEAD, keyed hash), log kinds, lifetimes, seven mutation kinds, three source addresses and five presentation times; clients never follow an altered Retry (seven field mutations, plaintext and rustls lanes), follow a genuine one once, ignore a verifying Retry once another server packet was processed; altered CID-echo parameters never yield Connected; the token log never accepts a nonce twice and the token cache never hands a token out twice or to the wrong server over long random histories.",
+  "forgeries are sampled, not excluded; expiry is probed 3 s around the lifetime; a verifying forged Retry can only be built on the plaintext lane (harness tag function)",
+  "DESIGN.md section 4 C14"),
  "C10": ("exploration",
   "runtime monitoring: round-trip and totality oracles over quinn's real codecs (hooks H3) against an independent wire codec, with exhaustive sub-spaces; the same sweeps repeated under AddressSanitizer and Miri",
   "encode->decode->compare for varints (all 2^30 four-byte values, all 1/2-byte values), packet numbers (window sweeps around 2^7/2^15/2^23/2^31), every frame type with boundary-valued fields, headers (type x CID length x pn length x token length), transport parameters, tokens and reset tokens; decoders fed arbitrary and mutated bytes must return an error or a value that re-encodes consistently, never panic, never read out of bounds (ASan, Miri lanes). Held on 5.6e7 inputs quick / 5.5e9 thorough.",
